@@ -22,7 +22,7 @@ RULE = ("multi-season runs (2-4 seasons, off-season not simulated) over every ir
         "with >= 30 in-season days; distinct = (spec digest, k)")
 ASSUMPTIONS = [
     "bit-identity is judged on one machine in one environment (IEEE-754 determinism of numpy/pandas)",
-    "SwitchGDD=0; thermal crops get an explicit latest harvest date so that the default (derived from the first simulated season) is not part of the comparison",
+    "SwitchGDD=0; thermal crops get an explicit latest harvest date: when it is left unset the model derives ONE date from the first simulated season (days to maturity + 30), so a multi-season run and a run started at season k are then given different latest harvest dates by definition (with warm and cool years a later season is cut at 143 days in one and runs 146+ in the other) - an input definition, not a state leak",
     "synthetic weather is a pure function of (seed, date); water-table observations use the 'Constant' method so that dates before the partner's start are legal",
 ]
 FLOORS = {
@@ -39,11 +39,12 @@ CASE_TIMEOUT = {"quick": 300, "thorough": 900}
 def cases(tier, seed):
     n = base.n_cases(216, 1500, tier)
     out = []
+    thermal_pool = [c for c in gen.usable_crops() if c in common.gdd_crops()]
     for i in range(n):
         rng = gen.rng_for(seed, ID, i)
         m = i % 6
         kw = dict(methods=(m,), seasons=(2, 4) if tier == "thorough" else (2, 3), off_season=False,
-                  p_gw=0.25, p_custom=0.25, p_bunds=0.3, p_file=0.2, end_shape=gen.pick(rng, ["after", "mid", "anniv"]),
+                  p_gw=0.25, p_custom=0.25, p_bunds=0.3, p_file=0.2, crops=(thermal_pool if i % 5 == 4 else None), end_shape=gen.pick(rng, ["after", "mid", "anniv"]),
                   p_co2=0.6, pre=(0, 0, 7, 2, 25))
         if m == 4:
             kw.update(dry=True)
@@ -68,7 +69,10 @@ def cases(tier, seed):
             # date a run starts
             sp["gw"] = {"method": "Constant", "dates": [sp["gw"]["dates"][0]], "values": [sp["gw"]["values"][0]]}
         cat = common.crop_catalogue()[sp["crop"]["name"]]
-        if cat["CalendarType"] == 2 and i % 2 == 0:
+        if cat["CalendarType"] == 2 and sp["weather"]["kind"] == "synth" and i % 3 != 2:
+            # warm and cool years: the thermal calendar of a later season differs from the first one's
+            sp["weather"].setdefault("params", {})["interannual"] = float(gen.pick(rng, [1.5, 2.5, 3.5]))
+        if cat["CalendarType"] == 2:
             mth, dd = [int(x) for x in sp["crop"]["planting"].split("/")]
             h = dt.date(2001, mth, dd) + dt.timedelta(days=min(340, gen.crop_len_days(sp["crop"]["name"]) + 70))
             if not (h.month == 2 and h.day == 29):
